@@ -70,6 +70,9 @@ type FaultPlan struct {
 	// MetaFailNth: the n-th call among OpenFile(for writing)/CreateTemp/Rename/Remove/Sync/Close/Truncate
 	// fails with EIO (1-based, 0 = none). Only hand-written write paths make such calls.
 	MetaFailNth int
+	// NowStepMs: time goes by between two readings of the clock - every reading moves the clock on by this many
+	// milliseconds (0 = the clock stands still while the process computes, as it practically does on a fast machine).
+	NowStepMs int
 }
 
 // Goroutine is one controlled goroutine of the simulated process.
@@ -592,6 +595,10 @@ func Now() time.Time {
 	t := s.now()
 	s.mu.Lock()
 	s.NowCalls++
+	if s.Plan.NowStepMs != 0 {
+		s.Skew += time.Duration(s.Plan.NowStepMs) * time.Millisecond
+		s.Fired["clock_moves_between_readings"]++
+	}
 	s.mu.Unlock()
 	s.logEvent(g, "now "+t.Format("2006-01-02T15:04:05Z07:00"))
 	return t
